@@ -19,6 +19,6 @@ for id in $ids; do
     [ $r = 1 ] && break
   done
   git -C /repo checkout -- . ; git -C /repo status --short | grep -v '^??' | head -2
-  keys=$(grep -E '^VIOLATION' /root/detect/$id.out | sed -E 's/.* key=([^ ]+) .*/\1/' | sort -u | head -6 | paste -sd' ')
+  keys=$(grep -aE '^VIOLATION' /root/detect/$id.out | sed -E 's/.* key=([^ ]+) .*/\1/' | sort -u | head -6 | paste -sd' ')
   echo "$id rc=$rc keys: $keys"
 done
